@@ -1,15 +1,25 @@
-//! Harnesses attached as a child module of searchlite-core/src/api/reader.rs
+//! Harnesses attached as a child module of searchlite-core/src/api/reader.rs:
+//! cursor codec (C11, C16), request-string kernels (C16), suggestion kernels
+//! (C22), rescore score combination (C19), bounded top-k heap (C11).
 //@@ crate: searchlite-core
 //@@ attach: searchlite-core/src/api/reader.rs
 use super::*;
 use crate::verif_support::*;
 
-//@ harness: c16_hex_decode_any4
+fn as_str(b: &[u8]) -> &str {
+  unsafe { std::str::from_utf8_unchecked(b) }
+}
+
+// --------------------------------------------------------------------------
+// C16: request strings never panic
+// --------------------------------------------------------------------------
+
 //@ props: C16
 //@ tier: quick
 //@ funcs: api::reader::hex_decode
-//@ bounds: cursor string = any well-formed UTF-8 string of exactly 4 bytes (any mix of 1-4 byte characters)
-//@ oracle: returns Ok or Err; no panic / unwrap failure / OOB
+//@ symbolic: cursor string = every well-formed UTF-8 string of exactly 4 bytes (any mix of 1-4 byte characters)
+//@ bounds: 4 bytes (2 hex chunks); longer cursors repeat the same 2-byte chunk step
+//@ oracle: returns Ok or Err; no panic / unwrap failure / out-of-bounds; Ok only for hex digits
 #[kani::proof]
 #[kani::unwind(6)]
 #[kani::stub(std::backtrace::Backtrace::capture, stub_backtrace)]
@@ -17,10 +27,529 @@ use crate::verif_support::*;
 fn c16_hex_decode_any4() {
   let b: [u8; 4] = kani::any();
   kani::assume(utf8_ok(&b));
-  let s = unsafe { std::str::from_utf8_unchecked(&b) };
-  let r = hex_decode(s);
+  let r = hex_decode(as_str(&b));
+  if r.is_ok() {
+    assert!(
+      b.iter().all(|c| c.is_ascii_hexdigit() || *c == b'+'),
+      "C16/C11: non-hex cursor accepted"
+    );
+  }
   kani::cover!(r.is_ok(), "some 4-byte string decodes");
-  kani::cover!(r.is_err(), "some 4-byte string is rejected");
-  kani::cover!(b[0] >= 0x80, "non-ASCII lead byte reached the decoder");
+  kani::cover!(r.is_err() && b[0] >= 0x80, "non-ASCII cursor is rejected with an error");
   std::mem::forget(r);
+}
+
+fn hex_decode_odd<const N: usize>() {
+  let b: [u8; N] = kani::any();
+  kani::assume(utf8_ok(&b));
+  let r = hex_decode(as_str(&b));
+  assert!(r.is_err(), "C16: odd-length hex string accepted");
+  kani::cover!(b[0] >= 0x80, "non-ASCII odd-length input");
+  std::mem::forget(r);
+}
+
+//@ props: C16
+//@ tier: quick
+//@ funcs: api::reader::hex_decode
+//@ symbolic: every well-formed UTF-8 string of exactly 3 bytes
+//@ bounds: odd length 3
+//@ oracle: odd-length cursors are rejected with Err, never a panic
+#[kani::proof]
+#[kani::unwind(7)]
+#[kani::stub(std::backtrace::Backtrace::capture, stub_backtrace)]
+#[kani::stub(alloc::fmt::format, stub_format)]
+fn c16_hex_decode_odd3() {
+  hex_decode_odd::<3>()
+}
+
+/// 42-byte cursor: version "01", then concrete '0' digits, with a window of
+/// W arbitrary well-formed UTF-8 bytes at the concrete offset OFF.
+fn score_cursor_window<const OFF: usize, const W: usize>() {
+  let mut b = [b'0'; 42];
+  b[1] = b'1';
+  let w: [u8; W] = kani::any();
+  kani::assume(utf8_ok(&w));
+  let mut i = 0;
+  while i < W {
+    b[OFF + i] = w[i];
+    i += 1;
+  }
+  let r = PaginationCursor::decode(as_str(&b));
+  if let Ok(c) = &r {
+    assert!(c.version == CURSOR_VERSION, "C11: cursor with a foreign version accepted");
+    assert!(c.returned as usize <= MAX_CURSOR_ADVANCE, "C11: cursor advance above the cap accepted");
+    assert!(w[0] < 0x80, "C16: non-ASCII cursor accepted");
+  }
+  kani::cover!(r.is_ok(), "a 42-byte cursor decodes");
+  kani::cover!(r.is_err() && w[0] >= 0xE0, "3/4-byte character inside the cursor is rejected");
+  std::mem::forget(r);
+}
+
+//@ props: C16, C11
+//@ tier: quick
+//@ funcs: api::reader::PaginationCursor::decode
+//@ symbolic: a 42-byte cursor whose bytes 3..7 are any well-formed UTF-8 (1-4 byte characters, straddling hex chunks at an odd offset); other bytes are concrete hex digits
+//@ bounds: length 42 (the only length decode accepts); one symbolic window of 4 bytes at odd offset 3
+//@ oracle: no panic; Ok implies version 1, returned <= 50000 and an ASCII window
+#[kani::proof]
+#[kani::unwind(44)]
+#[kani::stub(std::backtrace::Backtrace::capture, stub_backtrace)]
+#[kani::stub(alloc::fmt::format, stub_format)]
+fn c16_score_cursor_decode_window_odd() {
+  score_cursor_window::<3, 4>()
+}
+
+//@ like: c16_score_cursor_decode_window_odd
+//@ symbolic: as c16_score_cursor_decode_window_odd with the window at even offset 4
+//@ bounds: length 42; one symbolic window of 4 bytes at even offset 4
+#[kani::proof]
+#[kani::unwind(44)]
+#[kani::stub(std::backtrace::Backtrace::capture, stub_backtrace)]
+#[kani::stub(alloc::fmt::format, stub_format)]
+fn c16_score_cursor_decode_window_even() {
+  score_cursor_window::<4, 4>()
+}
+
+//@ like: c16_score_cursor_decode_window_odd
+//@ symbolic: window = the last 4 bytes of the cursor (the returned count's low bytes), any well-formed UTF-8
+//@ bounds: length 42; one symbolic window of 4 bytes at offset 38
+#[kani::proof]
+#[kani::unwind(44)]
+#[kani::stub(std::backtrace::Backtrace::capture, stub_backtrace)]
+#[kani::stub(alloc::fmt::format, stub_format)]
+fn c16_score_cursor_decode_window_tail() {
+  score_cursor_window::<38, 4>()
+}
+
+//@ props: C16
+//@ tier: quick
+//@ funcs: api::reader::PaginationCursor::decode
+//@ symbolic: every well-formed UTF-8 string of exactly 4 bytes
+//@ bounds: length 4 (a wrong length for a score cursor; the length test does not depend on the content)
+//@ oracle: wrong-length cursors are rejected with Err, never a panic
+#[kani::proof]
+#[kani::unwind(8)]
+#[kani::stub(std::backtrace::Backtrace::capture, stub_backtrace)]
+#[kani::stub(alloc::fmt::format, stub_format)]
+fn c16_score_cursor_wrong_length() {
+  let b: [u8; 4] = kani::any();
+  kani::assume(utf8_ok(&b));
+  let r = PaginationCursor::decode(as_str(&b));
+  assert!(r.is_err(), "C16: short cursor accepted");
+  kani::cover!(b[0] >= 0xF0, "4-byte character");
+  std::mem::forget(r);
+}
+
+//@ props: C16, C22
+//@ tier: quick
+//@ funcs: api::reader::char_prefix
+//@ symbolic: every well-formed UTF-8 string of exactly 4 bytes; requested prefix length 0..6
+//@ bounds: 4 bytes, len <= 6
+//@ oracle: no panic (slicing on a char boundary); result is a prefix of the input holding min(len, chars) characters
+#[kani::proof]
+#[kani::unwind(7)]
+fn c22_char_prefix_spec() {
+  let b: [u8; 4] = kani::any();
+  kani::assume(utf8_ok(&b));
+  let len: usize = kani::any();
+  kani::assume(len <= 6);
+  let s = as_str(&b);
+  let p = char_prefix(s, len);
+  // number of characters = number of non-continuation bytes
+  let mut total = 0usize;
+  let mut in_p = 0usize;
+  let mut i = 0;
+  while i < 4 {
+    if b[i] & 0xC0 != 0x80 {
+      total += 1;
+      if i < p.len() {
+        in_p += 1;
+      }
+    }
+    i += 1;
+  }
+  assert!(p.len() <= 4, "C22: prefix longer than input");
+  assert!(p.is_empty() || p.as_ptr() == s.as_ptr(), "C22: char_prefix is not a prefix");
+  assert!(p.len() == 4 || b[p.len()] & 0xC0 != 0x80, "C22: prefix ends inside a character");
+  let want = if len < total { len } else { total };
+  assert!(in_p == want, "C22: char_prefix does not hold min(len, chars) characters");
+  kani::cover!(total == 2 && len == 1 && p.len() == 3, "prefix of one 3-byte character");
+}
+
+//@ props: C16
+//@ tier: quick
+//@ funcs: api::reader::wildcard_literal_prefix, api::reader::regex_literal_prefix
+//@ symbolic: every well-formed UTF-8 pattern of exactly 4 bytes
+//@ bounds: 4 bytes
+//@ oracle: no panic; the wildcard literal prefix is a prefix of the pattern without '*' or '?'; the regex literal prefix is never longer than the pattern
+#[kani::proof]
+#[kani::unwind(7)]
+fn c16_pattern_prefixes_any4() {
+  let b: [u8; 4] = kani::any();
+  kani::assume(utf8_ok(&b));
+  let s = as_str(&b);
+  let w = wildcard_literal_prefix(s);
+  assert!(w.len() <= 4 && w.as_ptr() == s.as_ptr(), "C16: wildcard literal prefix is not a prefix");
+  let mut i = 0;
+  while i < w.len() {
+    assert!(b[i] != b'*' && b[i] != b'?', "C16: wildcard char inside literal prefix");
+    i += 1;
+  }
+  let r = regex_literal_prefix(s);
+  assert!(r.len() <= 4, "C16: regex literal prefix longer than the pattern");
+  kani::cover!(w.len() == 2 && b[2] == b'*', "wildcard prefix stops at '*'");
+  kani::cover!(r.len() == 3 && b[0] == b'\\', "escaped character kept in regex prefix");
+  kani::cover!(b[0] >= 0xE0, "multi-byte pattern");
+  std::mem::forget(r);
+}
+
+// --------------------------------------------------------------------------
+// C11: cursor codec
+// --------------------------------------------------------------------------
+
+//@ props: C11
+//@ tier: quick
+//@ funcs: api::reader::PaginationCursor::encode, api::reader::PaginationCursor::decode, api::reader::encode_cursor (score fast path), api::reader::score_sort_key
+//@ symbolic: generation, score bits (every f32 incl. NaN payloads and -0), segment ordinal, doc id, returned count
+//@ bounds: the fixed 42-character score cursor
+//@ oracle: decode(encode(c)) carries the same generation, score bits, segment, doc and returned count when returned <= 50000, and is Err above the cap
+#[kani::proof]
+#[kani::unwind(44)]
+#[kani::stub(std::backtrace::Backtrace::capture, stub_backtrace)]
+#[kani::stub(alloc::fmt::format, stub_format)]
+fn c11_score_cursor_roundtrip() {
+  let generation: u32 = kani::any();
+  let bits: u32 = kani::any();
+  let segment_ord: u32 = kani::any();
+  let doc_id: u32 = kani::any();
+  let returned: u32 = kani::any();
+  let key = score_sort_key(f32::from_bits(bits), segment_ord, doc_id, SortOrder::Desc);
+  let cur = PaginationCursor {
+    version: CURSOR_VERSION,
+    generation,
+    key,
+    returned,
+  };
+  let s = cur.encode();
+  assert!(s.len() == CURSOR_HEX_LEN, "C11: encoded cursor has the wrong length");
+  let r = PaginationCursor::decode(&s);
+  match &r {
+    Ok(d) => {
+      assert!(returned as usize <= MAX_CURSOR_ADVANCE, "C11: cursor above the advance cap accepted");
+      assert!(d.generation == generation, "C11: generation lost in cursor round trip");
+      assert!(d.key.score_bits() == Some(bits), "C11: score bits lost in cursor round trip");
+      assert!(d.key.segment_ord == segment_ord, "C11: segment lost in cursor round trip");
+      assert!(d.key.doc_id == doc_id, "C11: doc id lost in cursor round trip");
+      assert!(d.returned == returned, "C11: returned count lost in cursor round trip");
+      assert!(d.key.cmp(&cur.key) == std::cmp::Ordering::Equal, "C11: decoded key does not compare equal to the original");
+    }
+    Err(_) => assert!(returned as usize > MAX_CURSOR_ADVANCE, "C11: own cursor rejected"),
+  }
+  kani::cover!(r.is_ok() && f32::from_bits(bits).is_nan(), "NaN score round trips");
+  kani::cover!(r.is_err(), "over-cap cursor rejected");
+  std::mem::forget(r);
+  std::mem::forget(s);
+  std::mem::forget(cur);
+}
+
+fn empty_schema() -> Schema {
+  Schema {
+    doc_id_field: String::new(),
+    analyzers: Vec::new(),
+    text_fields: Vec::new(),
+    keyword_fields: Vec::new(),
+    numeric_fields: Vec::new(),
+    nested_fields: Vec::new(),
+    #[cfg(feature = "vectors")]
+    vector_fields: Vec::new(),
+  }
+}
+
+//@ props: C11
+//@ tier: quick
+//@ funcs: api::reader::decode_cursor (score fast path), api::reader::encode_cursor (score fast path), query::sort::SortPlan::from_request (default plan)
+//@ symbolic: generation the cursor was issued for, generation of the index it is presented to, score bits, segment, doc, returned
+//@ bounds: the fixed 42-character score cursor
+//@ oracle: a cursor presented to a different index generation is rejected with Err; to the same generation it yields the same key and count
+#[kani::proof]
+#[kani::unwind(44)]
+#[kani::stub(std::backtrace::Backtrace::capture, stub_backtrace)]
+#[kani::stub(alloc::fmt::format, stub_format)]
+#[kani::stub(crc32fast::Hasher::internal_new_specialized, stub_crc_specialized)]
+fn c11_stale_generation_rejected() {
+  let issued: u32 = kani::any();
+  let presented: u32 = kani::any();
+  let bits: u32 = kani::any();
+  let segment_ord: u32 = kani::any();
+  let doc_id: u32 = kani::any();
+  let returned: u32 = kani::any();
+  kani::assume(returned as usize <= MAX_CURSOR_ADVANCE);
+  let schema = empty_schema();
+  let plan = match SortPlan::from_request(&schema, &[]) {
+    Ok(p) => p,
+    Err(e) => {
+      std::mem::forget(e);
+      assert!(false, "default sort plan must build");
+      return;
+    }
+  };
+  assert!(plan.is_score_only(), "C10: default sort must be score only");
+  assert!(matches!(plan.primary_order(), Some(SortOrder::Desc)), "C10: default sort must be score descending");
+  let key = score_sort_key(f32::from_bits(bits), segment_ord, doc_id, SortOrder::Desc);
+  let s = match encode_cursor(issued, returned, &key, &plan, true) {
+    Ok(s) => s,
+    Err(e) => {
+      std::mem::forget(e);
+      assert!(false, "C11: encode_cursor failed on the score fast path");
+      return;
+    }
+  };
+  let r = decode_cursor(&s, presented, &plan, true);
+  match &r {
+    Ok(st) => {
+      assert!(issued == presented, "C11: cursor from another index generation accepted");
+      assert!(st.returned == returned, "C11: returned count changed");
+      assert!(st.key.cmp(&key) == std::cmp::Ordering::Equal, "C11: cursor key changed");
+    }
+    Err(_) => assert!(issued != presented, "C11: own cursor rejected"),
+  }
+  kani::cover!(r.is_ok(), "same generation accepted");
+  kani::cover!(r.is_err(), "stale generation rejected");
+  std::mem::forget(r);
+  std::mem::forget(s);
+  std::mem::forget(plan);
+  std::mem::forget(schema);
+}
+
+fn hit(score_bits: u32, seg: u32, doc: u32) -> RankedHit {
+  let score = f32::from_bits(score_bits);
+  RankedHit {
+    key: score_sort_key(score, seg, doc, SortOrder::Desc),
+    score,
+    vector_score: None,
+    explanation: None,
+  }
+}
+
+//@ props: C11, C10
+//@ tier: quick
+//@ funcs: api::reader::push_ranked, api::reader::RankedHit::cmp
+//@ symbolic: 4 candidate hits (any score bits, segment in 0..2, distinct doc ids) pushed in order; limit 0..3
+//@ bounds: 4 pushes, limit <= 3
+//@ oracle: the heap holds exactly min(limit, 4) hits and they are the smallest keys under SortKey::cmp (score desc, segment, doc): no kept hit is worse than a dropped one
+#[kani::proof]
+#[kani::unwind(6)]
+fn c11_push_ranked_keeps_best() {
+  let limit: usize = kani::any();
+  kani::assume(limit <= 3);
+  let bits: [u32; 4] = kani::any();
+  let segs: [u32; 4] = kani::any();
+  kani::assume(segs[0] < 2 && segs[1] < 2 && segs[2] < 2 && segs[3] < 2);
+  let mut heap: BinaryHeap<RankedHit> = BinaryHeap::new();
+  let mut i = 0;
+  while i < 4 {
+    push_ranked(&mut heap, hit(bits[i], segs[i], i as u32), limit);
+    i += 1;
+  }
+  let want = if limit < 4 { limit } else { 4 };
+  assert!(heap.len() == want, "C11: push_ranked keeps the wrong number of hits");
+  // kept[i] = hit i is still in the heap
+  let mut kept = [false; 4];
+  for h in heap.iter() {
+    kept[h.key.doc_id as usize] = true;
+  }
+  let mut a = 0;
+  while a < 4 {
+    let mut b = 0;
+    while b < 4 {
+      if kept[a] && !kept[b] {
+        let ka = score_sort_key(f32::from_bits(bits[a]), segs[a], a as u32, SortOrder::Desc);
+        let kb = score_sort_key(f32::from_bits(bits[b]), segs[b], b as u32, SortOrder::Desc);
+        assert!(ka.cmp(&kb) == std::cmp::Ordering::Less, "C11: a dropped hit ranks before a kept hit");
+      }
+      b += 1;
+    }
+    a += 1;
+  }
+  kani::cover!(limit == 2 && kept[3] && kept[2], "late better hits replace earlier ones");
+  kani::cover!(limit == 0, "limit zero");
+  std::mem::forget(heap);
+}
+
+// --------------------------------------------------------------------------
+// C22: edit distance kernel
+// --------------------------------------------------------------------------
+
+fn ref_lev3(a: &[u8], b: &[u8]) -> usize {
+  // textbook dynamic programme on a fixed 4x4 table (lengths <= 3)
+  let mut d = [[0usize; 4]; 4];
+  let mut i = 0;
+  while i <= a.len() {
+    d[i][0] = i;
+    i += 1;
+  }
+  let mut j = 0;
+  while j <= b.len() {
+    d[0][j] = j;
+    j += 1;
+  }
+  let mut i = 1;
+  while i <= a.len() {
+    let mut j = 1;
+    while j <= b.len() {
+      let cost = if a[i - 1] == b[j - 1] { 0 } else { 1 };
+      let mut v = d[i - 1][j] + 1;
+      if d[i][j - 1] + 1 < v {
+        v = d[i][j - 1] + 1;
+      }
+      if d[i - 1][j - 1] + cost < v {
+        v = d[i - 1][j - 1] + cost;
+      }
+      d[i][j] = v;
+      j += 1;
+    }
+    i += 1;
+  }
+  d[a.len()][b.len()]
+}
+
+/// One letter of a 4-letter ASCII alphabet, built as an if-then-else over two
+/// symbolic bits so that the symbolic executor can see it is ASCII (an
+/// `assume(b < 0x80)` is invisible to it and makes every `chars()` length,
+/// and with it every vector length, symbolic).
+fn letter() -> u8 {
+  let hi: bool = kani::any();
+  let lo: bool = kani::any();
+  if hi {
+    if lo {
+      b'd'
+    } else {
+      b'c'
+    }
+  } else if lo {
+    b'b'
+  } else {
+    b'a'
+  }
+}
+
+fn lev_check<const LA: usize, const LB: usize>() {
+  let mut a = [0u8; LA];
+  let mut b = [0u8; LB];
+  let mut i = 0;
+  while i < LA {
+    a[i] = letter();
+    i += 1;
+  }
+  let mut i = 0;
+  while i < LB {
+    b[i] = letter();
+    i += 1;
+  }
+  let m: usize = kani::any();
+  kani::assume(m <= 3);
+  let got = bounded_levenshtein(as_str(&a), as_str(&b), m);
+  let want = ref_lev3(&a, &b);
+  match got {
+    Some(d) => {
+      assert!(d == want, "C22: bounded_levenshtein returns a wrong distance");
+      assert!(d <= m, "C22: bounded_levenshtein exceeds max_edits");
+      let w = distance_weight(d);
+      assert!(w > 0.0 && w <= 1.0, "C22: distance weight out of range");
+      assert!(distance_weight(d + 1) < w, "C22: distance weight not decreasing");
+    }
+    None => assert!(want > m, "C22: term within max_edits rejected"),
+  }
+  kani::cover!(got.is_some(), "within max_edits");
+  kani::cover!(got.is_none(), "beyond max_edits");
+}
+
+//@ props: C22, C16
+//@ tier: quick
+//@ funcs: api::reader::bounded_levenshtein, api::reader::distance_weight
+//@ symbolic: two strings of exactly 3 characters each over the alphabet {a,b,c,d} (every one of the 4^6 contents), max_edits 0..3
+//@ bounds: 3 x 3 characters, max_edits <= 3
+//@ oracle: Some(d) iff the textbook Levenshtein distance d <= max_edits; no panic; distance_weight is in (0,1] and strictly decreasing
+#[kani::proof]
+#[kani::unwind(6)]
+fn c22_levenshtein_3x3() {
+  lev_check::<3, 3>()
+}
+
+//@ like: c22_levenshtein_3x3
+//@ symbolic: strings of 2 and 3 characters over {a,b,c,d}, max_edits 0..3
+//@ bounds: 2 x 3 characters
+#[kani::proof]
+#[kani::unwind(6)]
+fn c22_levenshtein_2x3() {
+  lev_check::<2, 3>()
+}
+
+//@ like: c22_levenshtein_3x3
+//@ symbolic: strings of 3 and 1 characters over {a,b,c,d}, max_edits 0..3
+//@ bounds: 3 x 1 characters
+#[kani::proof]
+#[kani::unwind(6)]
+fn c22_levenshtein_3x1() {
+  lev_check::<3, 1>()
+}
+
+//@ like: c22_levenshtein_3x3
+//@ symbolic: the empty string against a string of 2 characters over {a,b,c,d}, max_edits 0..3
+//@ bounds: 0 x 2 characters
+#[kani::proof]
+#[kani::unwind(6)]
+fn c22_levenshtein_0x2() {
+  lev_check::<0, 2>()
+}
+
+//@ props: C22, C16
+//@ tier: thorough
+//@ funcs: api::reader::bounded_levenshtein
+//@ symbolic: two well-formed UTF-8 strings of exactly 4 bytes each (any mix of 1-4 byte characters), max_edits 0..2
+//@ bounds: 4 bytes per string
+//@ oracle: no panic; symmetric (d(a,b) = d(b,a)); Some(0) iff the strings are equal
+#[kani::proof]
+#[kani::unwind(7)]
+fn c22_levenshtein_utf8_symmetry() {
+  let a: [u8; 4] = kani::any();
+  let b: [u8; 4] = kani::any();
+  kani::assume(utf8_ok(&a) && utf8_ok(&b));
+  let m: usize = kani::any();
+  kani::assume(m <= 2);
+  let ab = bounded_levenshtein(as_str(&a), as_str(&b), m);
+  let ba = bounded_levenshtein(as_str(&b), as_str(&a), m);
+  assert!(ab == ba, "C22: edit distance is not symmetric");
+  let same = a[0] == b[0] && a[1] == b[1] && a[2] == b[2] && a[3] == b[3];
+  assert!((ab == Some(0)) == same, "C22: distance 0 must mean equal strings");
+  kani::cover!(ab == Some(1) && a[0] >= 0xC2, "multi-byte substitution counted as one edit");
+}
+
+// --------------------------------------------------------------------------
+// C19: rescore score combination
+// --------------------------------------------------------------------------
+
+//@ props: C19
+//@ tier: quick
+//@ funcs: api::reader::combine_rescore_scores
+//@ symbolic: original and rescore scores (every finite f32)
+//@ assumes: scores are finite (non-finite scores are dropped before rescoring)
+//@ bounds: all five modes
+//@ oracle: total/sum = a+b, multiply = a*b, max = larger, min = smaller (bit-exact)
+#[kani::proof]
+fn c19_combine_rescore_modes() {
+  let a: f32 = kani::any();
+  let b: f32 = kani::any();
+  kani::assume(a.is_finite() && b.is_finite());
+  let t = combine_rescore_scores(RescoreMode::Total, a, b);
+  let s = combine_rescore_scores(RescoreMode::Sum, a, b);
+  let m = combine_rescore_scores(RescoreMode::Multiply, a, b);
+  let mx = combine_rescore_scores(RescoreMode::Max, a, b);
+  let mn = combine_rescore_scores(RescoreMode::Min, a, b);
+  assert!(t.to_bits() == (a + b).to_bits(), "C19: total is not original + rescore");
+  assert!(s.to_bits() == (a + b).to_bits(), "C19: sum is not original + rescore");
+  assert!(m.to_bits() == (a * b).to_bits(), "C19: multiply is not original * rescore");
+  assert!(mx == if a > b { a } else { b }, "C19: max is not the larger score");
+  assert!(mn == if a < b { a } else { b }, "C19: min is not the smaller score");
+  kani::cover!(a > b && mx == a && mn == b, "max/min distinguish");
 }
